@@ -41,7 +41,7 @@ pub fn dump_map<K: KeyT, V: ValT>(m: &Map<K, V>) -> String {
         }
         None => s.push_str(" a=-"),
     }
-    let _ = write!(s, " sing={}", d.singleton as u8);
+    let _ = write!(s, " sing={} salt={}", d.singleton as u8, m.hasher().salt);
     // alignment facts of the live block (C02): ctrl pointer aligned to the group width and to T
     let (_, ctrl_align) = Map::<K, V>::verif_table_layout();
     if d.bucket_mask != 0 && d.ctrl_addr % ctrl_align != 0 {
@@ -206,7 +206,7 @@ pub fn do_op<K: KeyT, V: ValT>(m: &mut Map<K, V>, w: &[&str], chk: &mut Vec<Stri
     let n = |i: usize| parse_u64(w[i]);
     match w[0] {
         "withcap" => {
-            *m = HashMap::with_capacity_and_hasher_in(n(1) as usize, PlanBuild, Ledger);
+            *m = HashMap::with_capacity_and_hasher_in(n(1) as usize, PlanBuild::default(), Ledger);
             Out::Unit
         }
         "insert" => match m.insert(K::mk(n(1), n(2)), V::mk(n(3))) {
@@ -447,7 +447,7 @@ pub fn do_op<K: KeyT, V: ValT>(m: &mut Map<K, V>, w: &[&str], chk: &mut Vec<Stri
         "capacity" => Out::Num(m.capacity() as u128),
         "allocsize" => Out::Num(m.allocation_size() as u128),
         "dropmap" => {
-            let old = std::mem::replace(m, HashMap::with_hasher_in(PlanBuild, Ledger));
+            let old = std::mem::replace(m, HashMap::with_hasher_in(PlanBuild::default(), Ledger));
             drop(old);
             Out::Unit
         }
@@ -455,8 +455,41 @@ pub fn do_op<K: KeyT, V: ValT>(m: &mut Map<K, V>, w: &[&str], chk: &mut Vec<Stri
     }
 }
 
+fn do_clone_op<K: KeyT, V: ValT>(m: &mut Map<K, V>, other: &mut Map<K, V>, w: &[&str], chk: &mut Vec<String>) -> String {
+    match w[0] {
+        "o_clone" => {
+            let c = m.clone();
+            let old = std::mem::replace(other, c);
+            drop(old);
+            "unit".into()
+        }
+        "o_clone_from" => {
+            m.clone_from(other);
+            "unit".into()
+        }
+        "o_swap" => {
+            std::mem::swap(m, other);
+            "unit".into()
+        }
+        "o_eq" => {
+            let r = *m == *other;
+            if r != (*other == *m) {
+                chk.push("== is not symmetric".into());
+            }
+            format!("bool {}", r as u8)
+        }
+        "o_salt" => {
+            let old = std::mem::replace(other, HashMap::with_hasher_in(PlanBuild { salt: parse_u64(w[1]) }, Ledger));
+            drop(old);
+            "unit".into()
+        }
+        x => panic!("unknown clone-family op {}", x),
+    }
+}
+
 pub fn run_map<K: KeyT, V: ValT>(lines: &[String], out: &mut String) {
-    let mut m: Map<K, V> = HashMap::with_hasher_in(PlanBuild, Ledger);
+    let mut m: Map<K, V> = HashMap::with_hasher_in(PlanBuild::default(), Ledger);
+    let mut other: Map<K, V> = HashMap::with_hasher_in(PlanBuild::default(), Ledger);
     let (tsize, calign) = Map::<K, V>::verif_table_layout();
     let _ = writeln!(
         out,
@@ -486,6 +519,96 @@ pub fn run_map<K: KeyT, V: ValT>(lines: &[String], out: &mut String) {
             continue;
         }
         step += 1;
+        if w[0].starts_with("o_") {
+            let _ = writeln!(out, "STEPC {} {}", step, line);
+            let _ = writeln!(out, "ARM {}", if arms.is_empty() { "-".to_string() } else { arms.join(" ; ") });
+            let _ = writeln!(out, "PRE {}", dump_map(&m));
+            let _ = writeln!(out, "PREO {}", dump_map(&other));
+            let mut pre = table_serials(&m);
+            pre.extend(table_serials(&other));
+            with_ctx(|c| {
+                c.drop_log.clear();
+                c.ev_log.clear();
+                c.clone_log.clear();
+            });
+            let mut chk: Vec<String> = Vec::new();
+            let r = catch_unwind(AssertUnwindSafe(|| do_clone_op(&mut m, &mut other, &w, &mut chk)));
+            disarm();
+            arms.clear();
+            let mut leak_ok = false;
+            match r {
+                Ok(o) => {
+                    let _ = writeln!(out, "RET {}", o);
+                }
+                Err(p) => {
+                    if let Some(h) = p.downcast_ref::<HvPanic>() {
+                        leak_ok = h.0 == "drop";
+                        let _ = writeln!(out, "RET unwind {}", h.0);
+                    } else {
+                        let _ = writeln!(out, "RET libpanic ?");
+                    }
+                }
+            }
+            let (evlog, clones, dd, aerr) = with_ctx(|c| {
+                (std::mem::take(&mut c.ev_log), std::mem::take(&mut c.clone_log), std::mem::take(&mut c.double_drops), std::mem::take(&mut c.alloc_errors))
+            });
+            let mut evs = String::new();
+            for (kind, x, a, _b) in &evlog {
+                match *kind {
+                    'A' | 'F' | 'R' => {
+                        let _ = write!(evs, " {}:{}:{}", kind, x, a);
+                    }
+                    'V' => {
+                        if let Some(e) = pre.iter().find(|e| e.1 == *x) {
+                            let _ = write!(evs, " DT:{}:{}:{}", e.2, e.3, a);
+                        }
+                    }
+                    _ => {}
+                }
+            }
+            let _ = writeln!(out, "EV{}", if evs.is_empty() { " -".to_string() } else { evs });
+            let _ = writeln!(out, "POST {}", dump_map(&m));
+            let _ = writeln!(out, "POSTO {}", dump_map(&other));
+            let _ = writeln!(out, "CLONES {}", clones.len());
+            check_red_zones();
+            for d in dd {
+                chk.push(format!("double drop of object serial {}", d));
+            }
+            chk.extend(aerr);
+            chk.extend(with_ctx(|c| std::mem::take(&mut c.alloc_errors)));
+            if K::DROP || V::DROP {
+                let mut in_table: std::collections::HashSet<u64> = std::collections::HashSet::new();
+                for e in table_serials(&m).iter().chain(table_serials(&other).iter()) {
+                    in_table.insert(e.0);
+                    in_table.insert(e.1);
+                }
+                // a clone owns its own objects: no serial may be shared between the two maps
+                let a: std::collections::HashSet<u64> = table_serials(&m).iter().flat_map(|e| [e.0, e.1]).collect();
+                let b: std::collections::HashSet<u64> = table_serials(&other).iter().flat_map(|e| [e.0, e.1]).collect();
+                if a.intersection(&b).next().is_some() {
+                    chk.push("the two maps share an element object (clone is not independent)".into());
+                }
+                let live: Vec<u64> = with_ctx(|c| c.live.keys().copied().collect());
+                for s in &live {
+                    if !in_table.contains(s) {
+                        with_ctx(|c| {
+                            c.live.remove(s);
+                        });
+                        if !leak_ok {
+                            chk.push(format!("object serial {} is in neither map and was not dropped (leak)", s));
+                        }
+                    }
+                }
+                for s in &in_table {
+                    if !live.contains(s) {
+                        chk.push(format!("a map holds object serial {} that has already been dropped", s));
+                    }
+                }
+            }
+            let _ = writeln!(out, "CHK {}", if chk.is_empty() { "ok".to_string() } else { chk.join(" | ") });
+            continue;
+        }
+        let other_before = dump_map(&other);
         let _ = writeln!(out, "STEP {} {}", step, line);
         let _ = writeln!(out, "ARM {}", if arms.is_empty() { "-".to_string() } else { arms.join(" ; ") });
         let _ = writeln!(out, "PRE {}", dump_map(&m));
@@ -556,7 +679,8 @@ pub fn run_map<K: KeyT, V: ValT>(lines: &[String], out: &mut String) {
         }
         // conservation (C03): every tracked object created so far is in the table, or dropped once
         if K::DROP || V::DROP {
-            let post = table_serials(&m);
+            let mut post = table_serials(&m);
+            post.extend(table_serials(&other));
             let live: Vec<u64> = with_ctx(|c| c.live.keys().copied().collect());
             let mut in_table: std::collections::HashSet<u64> = std::collections::HashSet::new();
             for e in &post {
@@ -584,9 +708,13 @@ pub fn run_map<K: KeyT, V: ValT>(lines: &[String], out: &mut String) {
                 }
             }
         }
+        if dump_map(&other) != other_before {
+            chk.push("an operation on one map changed its clone / the other map".into());
+        }
         let _ = writeln!(out, "CHK {}", if chk.is_empty() { "ok".to_string() } else { chk.join(" | ") });
     }
     drop(m);
+    drop(other);
     let (live, blocks, dd, aerr) = with_ctx(|c| (c.live.len(), c.blocks.len(), c.double_drops.len(), c.alloc_errors.clone()));
     let _ = writeln!(out, "END live={} blocks={} double_drops={} alloc_errors={}", live, blocks, dd, aerr.len());
 }
